@@ -123,7 +123,7 @@ fn wire_checks() -> (u64, Vec<String>) {
     let (addr, _stopped) = match exec.block_on(servlin::HttpServerBuilder::new().listen_addr(servlin::socket_addr_127_0_0_1_any_port()).max_conns(10).small_body_len(100).permit(permit.new_sub()).spawn(handler)) {
         Ok(x) => x, Err(e) => return (1, vec![format!("wire server expected=starts actual={e:?}")]) };
     let mut reqs: Vec<(String, Vec<u8>)> = Vec::new();
-    for code in [200u16, 204, 301, 404, 499, 500, 501, 503, 505, 550, 599, 600, 999] { reqs.push((format!("handler{code}"), format!("GET /{code} HTTP/1.1\r\n\r\n").into_bytes())); }
+    for code in [0u16, 1, 42, 99, 200, 204, 301, 404, 499, 500, 501, 503, 505, 550, 599, 600, 999, 5000, 9999] { reqs.push((format!("handler{code}"), format!("GET /{code} HTTP/1.1\r\n\r\n").into_bytes())); }
     for code in [200u16, 500, 503, 599] { reqs.push((format!("handler{code}-own-connection-header"), format!("GET /{code}?k HTTP/1.1\r\n\r\n").into_bytes())); }
     reqs.push(("http10".into(), b"GET / HTTP/1.0\r\n\r\n".to_vec()));
     reqs.push(("http2".into(), b"GET / HTTP/2.0\r\n\r\n".to_vec()));
@@ -146,7 +146,7 @@ fn wire_checks() -> (u64, Vec<String>) {
         // every status line on the wire, with the head that follows it
         for (i, _) in text.match_indices("HTTP/1.1 ") {
             let head = text[i..].split("\r\n\r\n").next().unwrap_or("");
-            let code: u16 = head.get(9..12).and_then(|c| c.parse().ok()).unwrap_or(0);
+            let code: u16 = head[9..].split(|c: char| c == ' ' || c == '\r').next().and_then(|c| c.parse().ok()).unwrap_or(0);
             let marked = head.to_ascii_lowercase().split("\r\n").any(|l| l.replace(' ', "") == "connection:close");
             if (500..=599).contains(&code) && !marked { found.push(format!("wire request={name} expected=connection: close on the {code} response actual=head {head:?}")); }
         }
